@@ -21,7 +21,7 @@ import common
 import vhdl_reader as R
 
 RULES = ["wt_design", "assoc_ok", "case_ok", "ports_ok", "sens_ok", "idents_ok", "decl_unique", "no_reserved",
-         "no_hiding", "no_user_reserved"]
+         "no_hiding", "no_user_reserved", "lib_unique"]
 
 PREDEF_TYPES = ["std_logic", "std_logic_vector", "unsigned", "signed", "boolean", "integer", "natural"]
 PREDEF_FUNCS = ["to_integer", "to_unsigned", "to_signed", "resize", "shift_left", "shift_right", "rising_edge",
@@ -34,12 +34,13 @@ PREAMBLE = (common.COQ_HEADER +
             "From Coq Require Import String.\n"
             "From Cohdl Require Import Vhdl.Typing Vhdl.Names Vhdl.TablesRef.\n"
             "Local Open Scope string_scope.\n"
-            "Record ecase := { ec_d : design; ec_names : ent_names; ec_assoc : list assoc; ec_user : list string }.\n"
+            "Record ecase := { ec_d : design; ec_names : ent_names; ec_assoc : list assoc; ec_user : list string;\n"
+            "  ec_lib : list string }.\n"
             "Definition rules (c : ecase) : list bool :=\n"
             "  [ wt_design c.(ec_d); forallb (assoc_ok (mk_tenv c.(ec_d))) c.(ec_assoc); case_ok c.(ec_d);\n"
             "    ports_ok c.(ec_d); sens_ok c.(ec_d); idents_ok c.(ec_names); decl_unique c.(ec_names);\n"
             "    no_reserved vhdl93_reserved c.(ec_names); no_hiding predefined_used_by_emitter c.(ec_names);\n"
-            "    no_reserved (map lower c.(ec_user)) c.(ec_names) ].\n"
+            "    no_reserved (map lower c.(ec_user)) c.(ec_names); lib_unique c.(ec_lib) ].\n"
             "Fixpoint failing (l : list bool) (i : N) : list N :=\n"
             "  match l with [] => [] | b :: r => if b then failing r (i + 1)%N else i :: failing r (i + 1)%N end.\n"
             "Definition verdict (c : ecase) : list N * list N := (failing (rules c) 0%N, ill_typed_conc c.(ec_d)).\n")
@@ -343,8 +344,9 @@ def build_cases(dname, vhdl, user_reserved=None):
         nterm, ninfo = names_term(e, etext)
         meta = {"names": ninfo, "stmts": stmts, "assoc": ainfo, "design": d}
         if len(dterm) <= BIG_TERM:
-            term = "{| ec_d := %s;\n ec_names := %s;\n ec_assoc := [%s]; ec_user := %s |}" % (
-                dterm, nterm, "; ".join(aterms), coq_strs(user_reserved or []))
+            term = "{| ec_d := %s;\n ec_names := %s;\n ec_assoc := [%s]; ec_user := %s; ec_lib := %s |}" % (
+                dterm, nterm, "; ".join(aterms), coq_strs(user_reserved or []),
+                coq_strs([x.name for x in ents] if not cases else []))
             cases.append(ECase(dname, e, term, meta))
             continue
         # a very large entity: the rules about statements are conjunctions over d_conc, so the statement list is
@@ -363,8 +365,9 @@ def build_cases(dname, vhdl, user_reserved=None):
             if k == len(concs) or (size + len(concs[k]) > BIG_TERM and k > start):
                 dt = "{| d_sigs := %s_sigs; d_vars := %s_vars; d_conc := [%s%s" % (
                     uid, uid, ";\n    ".join(concs[start:k]), dterm[i3:])
-                term = "{| ec_d := %s;\n ec_names := %s;\n ec_assoc := [%s]; ec_user := %s |}" % (
-                    dt, nterm, "; ".join(aterms) if start == 0 else "", coq_strs(user_reserved or []))
+                term = "{| ec_d := %s;\n ec_names := %s;\n ec_assoc := [%s]; ec_user := %s; ec_lib := %s |}" % (
+                    dt, nterm, "; ".join(aterms) if start == 0 else "", coq_strs(user_reserved or []),
+                    coq_strs([x.name for x in ents] if not cases else []))
                 c = ECase(dname, e, term, dict(meta, stmts=stmts[start:k]))
                 c.prelude = prelude
                 cases.append(c)
@@ -1068,8 +1071,8 @@ class E7(cohdl.Entity):
 # ----------------------------------------------------------------------------------------------------------
 
 LIVE_RESERVED = set()
-# which name-assignment model the recorded scopes are compared with: "current" = complete_setup as it is in /repo,
-# "fixed" = with seeded/_proposed_fixes/C06_identifiers.diff applied (set the default to "fixed" once it is merged)
+# the recorded scopes are compared with Names.uniquify = the CURRENT complete_setup (strip, collapse underscores,
+# fallback for an empty name; /repo 3102177).  C06_MODEL=strip compares with the code as it was before (development only).
 MODEL = os.environ.get("C06_MODEL", "current")
 
 
@@ -1232,6 +1235,9 @@ def classify(case, rule, bad_conc):
         return ({"rule": rule, "object": kinds_of(ent, bad[0]) if bad else "?"},
                 "declared identifier %r equals (case-insensitively) a name the user reserved (%s)" % (
                     bad[0] if bad else "?", case.design.get("reserved")), {"identifiers": bad})
+    if rule == "lib_unique":
+        lib = re.findall(r"(?im)^\s*entity\s+(\w+)\s+is\s*$", case.result.get("vhdl", ""))
+        return ({"rule": rule}, "two design units of one library have the same name (case-insensitively)", {"entities": lib})
     if rule == "assoc_ok":
         return ({"rule": rule}, "a port association is ill-typed", {"associations": case.meta["assoc"]})
     return ({"rule": rule}, "rule %s fails" % rule, {})
@@ -1337,7 +1343,7 @@ def uniquify_phase(ck, rep, compiled, live):
                 ut = "(live_initially_used ++ %s)%%list" % coq_strs(extra)
             else:
                 ut = coq_strs(used)
-            if MODEL == "fixed":
+            if MODEL != "strip":
                 reqs = "[" + "; ".join("(%s, %s)" % (coq_str(a), coq_str(b or "obj")) for a, b in
                                        zip(sc["reqs"], sc.get("fallbacks") or sc["reqs"])) + "]"
             else:
@@ -1357,10 +1363,10 @@ def uniquify_phase(ck, rep, compiled, live):
         with open(path, "w") as f:
             f.write(pre + "From Cohdl Require Import Base.Util.\n")
             f.write("Definition cases : list (list string * %s * list string) := [\n  " % (
-                "list (string * string)" if MODEL == "fixed" else "list string") +
+                "list (string * string)" if MODEL != "strip" else "list string") +
                     ";\n  ".join(terms[si:si + shard]) + "].\n")
             f.write("Eval vm_compute in (bad_indices (fun c => strs_eqb (%s (fst (fst c)) (snd (fst c))) (snd c)) cases).\n"
-                    % ("uniquify_fixed" if MODEL == "fixed" else "uniquify"))
+                    % ("uniquify" if MODEL != "strip" else "uniquify_strip"))
         files.append((si, path))
     outs = common.coqc_many([p for _, p in files], timeout=900, extra_q=[(ck.gen, "C06gen")])
     bad = []
@@ -1390,13 +1396,24 @@ def uniquify_phase(ck, rep, compiled, live):
 
 
 def run(ck: common.Check, replay=None):
+    import time
+    t_phase = [time.time()]
+    phases = {}
+
+    def phase(name):
+        now = time.time()
+        phases[name] = round(now - t_phase[0], 1)
+        t_phase[0] = now
+        ck.cov["phase_s"] = phases
     rep = Reporter(ck)
     if replay is None:
         for f in os.listdir(ck.replay_dir):
             if re.fullmatch(r"v\d+\.json", f):
                 os.unlink(os.path.join(ck.replay_dir, f))
     ck.check_props("C06_Properties.v")
+    phase("props")
     live = tables_phase(ck, rep)
+    phase("tables")
     rng = ck.rng
     quick = ck.tier == "quick"
     designs = []
@@ -1448,10 +1465,9 @@ def run(ck: common.Check, replay=None):
             designs += singles
             results += r2
 
+    phase("compile")
     compiled = []
     cases = []
-    lib_terms = []
-    lib_owner = []
     for d, r in zip(designs, results):
         g = d["meta"]["gen"]
         ck.hist("designs", g)
@@ -1484,8 +1500,6 @@ def run(ck: common.Check, replay=None):
             c.design = d
             c.result = r
         cases += cs
-        lib_terms.append(coq_strs(lib))
-        lib_owner.append((d, r, lib))
         if g == "expr":
             for t in d["meta"]["tags"]:
                 ck.nontrivial("expr:" + t)
@@ -1500,7 +1514,9 @@ def run(ck: common.Check, replay=None):
         if len(ck.samples) < 4 and g in ("naming", "expr"):
             ck.sample({"design": d["name"], "meta": d["meta"], "entities": lib, "vhdl_lines": r["vhdl"].count("\n")})
 
+    phase("read")
     verdicts = eval_cases(ck, "ent", cases)
+    phase("rules_in_coq")
     ck.cov["entities_checked"] = len(cases)
     for c, v in zip(cases, verdicts):
         if v is not None and v[0] == "coq-error" and "Stack overflow" in v[1]:
@@ -1520,18 +1536,9 @@ def run(ck: common.Check, replay=None):
                 rep.report(key, "%s: %s (entity %s)" % (rule, what, c.ent.name),
                            design_replay(c.design, c.result, dict(det, rule=rule, entity_checked=c.ent.name,
                                                                   ill_typed_conc=bad_conc[:10])))
-    # library level: every entity name once
-    if lib_terms:
-        pre = ("From Coq Require Import String List Bool NArith.\nImport ListNotations.\nFrom Cohdl Require Import Vhdl.Names.\n"
-               "Local Open Scope string_scope.\n")
-        bad = common.coq_bad_indices(ck, "lib", pre, "list string", lib_terms, "lib_unique")
-        for i in range(len(lib_terms)):
-            ck.obligation(i not in bad)
-        for i in bad:
-            d, r, lib = lib_owner[i]
-            rep.report({"rule": "lib_unique"}, "two design units of one library have the same name (case-insensitively): %s" % lib,
-                       design_replay(d, r, {"rule": "lib_unique", "entities": lib}))
+    phase("classify")
     uniquify_phase(ck, rep, compiled, live)
+    phase("uniquify")
     ck.cov["violation_hits_by_key"] = rep.seen
     ck.cov["rule"] = ("a case = one entity of one compiled design; distinct_nontrivial counts distinct (naming kind, slot, "
                       "name) triples, distinct expression templates, distinct upstream designs and distinct renaming scopes")
